@@ -32,20 +32,20 @@ func runParams(_ []string) error {
 	}
 	sort.Slice(legacy, func(i, j int) bool { return legacy[i][0] < legacy[j][0] })
 	out := map[string]any{
-		"refresh_min_interval":          int64(session.RefreshMinInterval),
-		"refresh_leeway":                int64(session.RefreshLeeway),
-		"lock_retry_interval":           int64(sp["refresh_acquire_lock_retry_interval"]),
-		"lock_acquire_timeout":          int64(sp["refresh_acquire_lock_timeout"]),
-		"lock_duration":                 int64(sp["refresh_lock_duration"]),
-		"retry_base":                    int64(rb),
-		"retry_max":                     int64(rm),
-		"max_auto_retry_attempts":       int64(handler.MaxAutoRetryAttempts),
-		"acceptable_skew":               int64(openid.AcceptableSkew),
-		"client_assertion_lifetime":     int64(openidclient.DefaultClientAssertionLifetime),
-		"redirect_regex":                urlpkg.VerifRedirectRegex(),
-		"redirect_query_parameter":      urlpkg.RedirectQueryParameter,
-		"acr_legacy_mapping":            legacy,
-		"default_ignore_patterns":       autologin.DefaultIgnorePatterns,
+		"refresh_min_interval":      int64(session.RefreshMinInterval),
+		"refresh_leeway":            int64(session.RefreshLeeway),
+		"lock_retry_interval":       int64(sp["refresh_acquire_lock_retry_interval"]),
+		"lock_acquire_timeout":      int64(sp["refresh_acquire_lock_timeout"]),
+		"lock_duration":             int64(sp["refresh_lock_duration"]),
+		"retry_base":                int64(rb),
+		"retry_max":                 int64(rm),
+		"max_auto_retry_attempts":   int64(handler.MaxAutoRetryAttempts),
+		"acceptable_skew":           int64(openid.AcceptableSkew),
+		"client_assertion_lifetime": int64(openidclient.DefaultClientAssertionLifetime),
+		"redirect_regex":            urlpkg.VerifRedirectRegex(),
+		"redirect_query_parameter":  urlpkg.RedirectQueryParameter,
+		"acr_legacy_mapping":        legacy,
+		"default_ignore_patterns":   autologin.DefaultIgnorePatterns,
 		"paths": map[string]string{
 			"oauth2": paths.OAuth2, "login": paths.Login, "callback": paths.LoginCallback,
 			"logout": paths.Logout, "logout_callback": paths.LogoutCallback,
